@@ -254,22 +254,57 @@ Proof. intros c H. rewrite H. apply orb_true_r. Qed.
 Lemma digit_is_numeric_char : forall c, is_digit c = true -> (c =? c_dot) || (c =? c_minus) || is_digit c = true.
 Proof. intros c H. rewrite H. apply orb_true_r. Qed.
 
-Lemma is_integer_dec : forall z, is_integer (dec_of_Z z) = true.
+Lemma bytes_of_uint_head : forall u, u <> Decimal.Nil ->
+  exists c r, bytes_of_uint u = c :: r /\ is_digit c = true.
+Proof. intros u H. destruct u; try contradiction; simpl; eexists; eexists; split; reflexivity. Qed.
+
+Lemma digits_only_num_body : forall r b, digits_only r = true -> num_body b r = true.
 Proof.
-  intro z. unfold is_integer. destruct z as [|p|p]; simpl.
-  - reflexivity.
-  - eapply forallb_impl; [apply digit_is_integer_char|apply bytes_of_uint_digits].
-  - eapply forallb_impl; [apply digit_is_integer_char|apply bytes_of_uint_digits].
+  induction r as [|c r IH]; simpl; intros b H; [reflexivity|].
+  apply andb_true_iff in H. destruct H as [H1 H2].
+  pose proof (is_digit_range _ H1) as R. unfold c_dot. destruct (N.eqb_spec c 46); [lia|].
+  rewrite H1. simpl. apply IH. exact H2.
 Qed.
 
-Lemma is_integer_is_numeric : forall s, is_integer s = true -> is_numeric s = true.
+Lemma is_integer_dec : forall sa z, is_integer sa (dec_of_Z z) = true.
 Proof.
-  intros s. unfold is_integer, is_numeric. apply forallb_impl. intros c H.
-  apply orb_true_iff in H. destruct H as [H|H]; rewrite H; rewrite ?orb_true_r; reflexivity.
+  intros [|] z; unfold is_integer.
+  - unfold is_integer_anywhere. destruct z as [|p|p]; simpl.
+    + reflexivity.
+    + eapply forallb_impl; [apply digit_is_integer_char|apply bytes_of_uint_digits].
+    + eapply forallb_impl; [apply digit_is_integer_char|apply bytes_of_uint_digits].
+  - destruct z as [|p|p]; simpl dec_of_Z.
+    + reflexivity.
+    + destruct (bytes_of_uint_head (Pos.to_uint p) (Unsigned.to_uint_nonnil p)) as (c & r & E & D).
+      unfold is_integer_strict. rewrite E. pose proof (is_digit_range _ D) as R.
+      destruct (N.eqb_spec c c_minus) as [C|C]; [unfold c_minus in C; lia|].
+      rewrite <- E. apply bytes_of_uint_digits.
+    + unfold is_integer_strict. unfold c_minus at 2. rewrite N.eqb_refl. apply bytes_of_uint_digits.
 Qed.
 
-Lemma is_numeric_dec : forall z, is_numeric (dec_of_Z z) = true.
-Proof. intro z. apply is_integer_is_numeric. apply is_integer_dec. Qed.
+Lemma is_integer_is_numeric : forall sa s, is_integer sa s = true -> is_numeric sa s = true.
+Proof.
+  intros [|] s; unfold is_integer, is_numeric.
+  - unfold is_integer_anywhere, is_numeric_anywhere. apply forallb_impl. intros c H.
+    apply orb_true_iff in H. destruct H as [H|H]; rewrite H; rewrite ?orb_true_r; reflexivity.
+  - unfold is_integer_strict, is_numeric_strict. destruct s as [|c r]; [reflexivity|].
+    destruct (c =? c_minus); apply digits_only_num_body.
+Qed.
+
+Lemma is_numeric_dec : forall sa z, is_numeric sa (dec_of_Z z) = true.
+Proof. intros sa z. apply is_integer_is_numeric. apply is_integer_dec. Qed.
+
+(* a text the repaired isInteger accepts but that holds no digit is "" or "-": strTo<long> gives 0 *)
+Lemma strict_integer_without_digit : forall k,
+  is_integer_strict k = true -> existsb is_digit k = false -> str_to_long k = 0%Z.
+Proof.
+  intros [|c r] H D; [reflexivity|]. unfold is_integer_strict in H. simpl in D.
+  apply orb_false_iff in D. destruct D as [D1 D2].
+  destruct (c =? c_minus) eqn:C.
+  - destruct r as [|c2 r]; [unfold str_to_long; rewrite C; reflexivity|].
+    simpl in H, D2. apply andb_true_iff in H. destruct H as [H _]. apply orb_false_iff in D2. destruct D2 as [D2 _]. congruence.
+  - simpl in H. apply andb_true_iff in H. destruct H as [H _]. congruence.
+Qed.
 
 Lemma contains_dot_dec : forall z, contains_dot (dec_of_Z z) = false.
 Proof.
@@ -285,9 +320,6 @@ Proof.
   pose proof (Unsigned.to_uint_nonnil p) as H. destruct (Pos.to_uint p); simpl; try discriminate. contradiction.
 Qed.
 
-Lemma bytes_of_uint_head : forall u, u <> Decimal.Nil ->
-  exists c r, bytes_of_uint u = c :: r /\ is_digit c = true.
-Proof. intros u H. destruct u; try contradiction; simpl; eexists; eexists; split; reflexivity. Qed.
 
 Lemma clamp_long_id : forall z, in_long z = true -> clamp_long z = z.
 Proof.
@@ -539,17 +571,18 @@ Section Roundtrip.
      4-7  a double classified stable prints to a non-empty text which, according to its shape, is read
           back by strTo<double> to a double printing the same / is the decimal text of a long that
           converts back to a double printing the same / is read by the Lua VM as a float printing
-          the same. *)
+          the same.  ([sa] ranges over the two versions of isNumeric, pinned and repaired; they agree on
+          every text a double prints to, but that too is outside the model.) *)
   Definition oracle_ok : Prop :=
     (forall g, leval g s_true = Some [LBool true]) /\
     (forall g, leval g s_false = Some [LBool false]) /\
     (forall z, (- TWO53 <= z <= TWO53)%Z -> d2s (l2d z) = dec_of_Z z) /\
     (forall f, Fst f = true -> d2s f <> []) /\
-    (forall f, Fst f = true -> is_numeric (d2s f) = true -> contains_dot (d2s f) = true ->
+    (forall sa f, Fst f = true -> is_numeric sa (d2s f) = true -> contains_dot (d2s f) = true ->
        d2s (s2d (d2s f)) = d2s f) /\
-    (forall f, Fst f = true -> is_numeric (d2s f) = true -> contains_dot (d2s f) = false ->
+    (forall sa f, Fst f = true -> is_numeric sa (d2s f) = true -> contains_dot (d2s f) = false ->
        exists z, d2s f = dec_of_Z z /\ in_long z = true /\ d2s (l2d z) = dec_of_Z z) /\
-    (forall g f, Fst f = true -> is_numeric (d2s f) = false ->
+    (forall sa g f, Fst f = true -> is_numeric sa (d2s f) = false ->
        exists f', leval g (d2s f) = Some [LNum (NFlt f')] /\ d2s f' = d2s f).
 
   Hypothesis H_oracle : oracle_ok.
@@ -572,7 +605,7 @@ Section Roundtrip.
       | (k, x) :: r =>
           if key_undefined vr k then MUndef
           else match f x with
-               | MOk lx => go r (tbl_set (key_of_compound k) lx acc)
+               | MOk lx => go r (tbl_set (key_of_compound vr k) lx acc)
                | MErr => MErr
                | MUndef => MUndef
                end
@@ -589,7 +622,7 @@ Section Roundtrip.
   Lemma gdl_comp : forall vr g a t ar kx c, gdl vr g (Data a t ar (kx :: c)) = comp_go vr (gdl vr g) (kx :: c) [].
   Proof. reflexivity. Qed.
   Lemma gdl_atom : forall vr g a t, gdl vr g (Data a t [] []) =
-    if atom_branch_taken vr a t then atom_as_lua F s2d leval g a t else MOk LNil.
+    if atom_branch_taken vr a t then atom_as_lua F s2d leval vr g a t else MOk LNil.
   Proof. reflexivity. Qed.
   Lemma gld_table : forall vr t, gld vr (LTable t) = table_as_data vr (conv vr t).
   Proof. reflexivity. Qed.
@@ -665,7 +698,7 @@ Section Roundtrip.
 
   Lemma comp_go_spec : forall vr g (c : smap data) (ls : list (lua F)),
     Forall2 (fun kd l => gdl vr g (snd kd) = MOk l /\ is_lnil l = false) c ls ->
-    Forall (fun kd => key_undefined vr (fst kd) = false /\ key_of_compound (fst kd) = KStr (fst kd)) c ->
+    Forall (fun kd => key_undefined vr (fst kd) = false /\ key_of_compound vr (fst kd) = KStr (fst kd)) c ->
     forall acc, NoDup (map fst acc ++ map (fun kd => KStr (fst kd)) c) ->
     comp_go vr (gdl vr g) c acc = MOk (LTable (acc ++ strkeys c ls)).
   Proof.
@@ -713,7 +746,7 @@ Section Roundtrip.
 
   Lemma rt_good_map : forall vr g (c : smap data),
     c <> [] -> ssorted c ->
-    Forall (fun kd => key_undefined vr (fst kd) = false /\ key_of_compound (fst kd) = KStr (fst kd)) c ->
+    Forall (fun kd => key_undefined vr (fst kd) = false /\ key_of_compound vr (fst kd) = KStr (fst kd)) c ->
     Forall (fun kd => rt_good vr g (snd kd)) c ->
     rt_good vr g (Data [] INTERPRETED [] c).
   Proof.
@@ -796,16 +829,25 @@ Section Roundtrip.
   Qed.
 
   Lemma vok_map : forall vr (kvs : list (bytes * value F)), variant_ok vr (VMap kvs) =
-    forallb (fun kv => negb (key_undefined vr (fst kv)) && variant_ok vr (snd kv)) kvs.
+    forallb (fun kv => negb (key_undefined vr (fst kv)) &&
+                       (negb (lm_sign_anywhere vr) || negb (key_numeric_anywhere (fst kv))) &&
+                       variant_ok vr (snd kv)) kvs.
   Proof.
     intros vr kvs. simpl. induction kvs as [|[k x] kvs IH]; [reflexivity|]. rewrite IH. reflexivity.
   Qed.
 
-  Lemma key_plain : forall k, key_numeric k = false -> key_of_compound k = KStr k.
+  Lemma key_plain : forall vr k, key_numeric k = false ->
+    (lm_sign_anywhere vr = false \/ key_numeric_anywhere k = false) ->
+    key_of_compound vr k = KStr k.
   Proof.
-    intros k H. unfold key_of_compound. destruct k as [|c k]; [reflexivity|].
-    simpl in H. destruct (is_integer (c :: k)) eqn:E; [|reflexivity].
-    apply is_integer_is_numeric in E. change (is_numeric (c :: k) = false) in H. congruence.
+    intros vr k H S. unfold key_of_compound. destruct (lm_sign_anywhere vr) eqn:SA.
+    - destruct S as [S|S]; [discriminate|]. destruct k as [|c k]; [reflexivity|].
+      destruct (is_integer true (c :: k)) eqn:E; [|reflexivity].
+      apply is_integer_is_numeric in E. unfold key_numeric_anywhere in S. unfold is_numeric in E. congruence.
+    - destruct (is_integer false k) eqn:E; [|reflexivity].
+      pose proof (is_integer_is_numeric false k E) as E2. unfold is_integer in E. unfold is_numeric in E2.
+      unfold key_numeric in H. rewrite E2 in H. simpl in H.
+      rewrite (strict_integer_without_digit k E H). reflexivity.
   Qed.
 
   (* ---------------------------------------------------------------- atoms *)
@@ -823,8 +865,9 @@ Section Roundtrip.
   Lemma rt_good_bool : forall vr g (b : bool), rt_good vr g (if b then atomI s_true else atomI s_false).
   Proof.
     destruct H_oracle as (Ht & Hf & _).
-    intros vr g [|]; [exists (LBool true)|exists (LBool false)]; unfold atomI; rewrite gdl_atom; simpl;
-      [rewrite Ht|rewrite Hf]; repeat split; reflexivity.
+    intros vr g [|]; [exists (LBool true)|exists (LBool false)]; unfold atomI; rewrite gdl_atom;
+      unfold atom_as_lua; destruct (lm_sign_anywhere vr); simpl;
+      rewrite ?Ht, ?Hf; repeat split; reflexivity.
   Qed.
 
   Lemma rt_good_int : forall vr g z, in_long z = true ->
@@ -845,15 +888,15 @@ Section Roundtrip.
     destruct H_oracle as (_ & _ & _ & Hne & Hdot & Hint & Hexp).
     intros vr g f S. unfold rt_good, atomI. rewrite gdl_atom.
     rewrite atom_branch_nonempty by (apply Hne; exact S).
-    unfold atom_as_lua. destruct (is_numeric (d2s f)) eqn:N.
+    unfold atom_as_lua. destruct (is_numeric (lm_sign_anywhere vr) (d2s f)) eqn:N.
     - destruct (contains_dot (d2s f)) eqn:D.
       + exists (LNum (NFlt (s2d (d2s f)))). split; [reflexivity|split; [reflexivity|]].
-        simpl. unfold atomI. rewrite (Hdot f S N D). reflexivity.
-      + destruct (Hint f S N D) as (z & E & L & P).
+        simpl. unfold atomI. rewrite (Hdot _ f S N D). reflexivity.
+      + destruct (Hint _ f S N D) as (z & E & L & P).
         exists (LNum (NInt (str_to_long (d2s f)))). split; [reflexivity|split; [reflexivity|]].
         simpl. unfold atomI. f_equal. rewrite E. rewrite (str_to_long_dec z L).
         destruct (lm_int_via_double vr); [rewrite P|]; reflexivity.
-    - destruct (Hexp g f S N) as (f' & E & P). rewrite E.
+    - destruct (Hexp _ g f S N) as (f' & E & P). rewrite E.
       exists (LNum (NFlt f')). split; [reflexivity|split; [reflexivity|]].
       simpl. unfold atomI. rewrite P. reflexivity.
   Qed.
@@ -888,12 +931,14 @@ Section Roundtrip.
     - rewrite emb_map. rewrite unamb_map in U. rewrite vok_map in V.
       apply andb_true_iff in U. destruct U as [U1 U3]. apply andb_true_iff in U1. destruct U1 as [U1 U2].
       assert (A : forall kd, In kd (smap_of_list (embl kvs)) ->
-                (key_undefined vr (fst kd) = false /\ key_of_compound (fst kd) = KStr (fst kd)) /\ rt_good vr g (snd kd)).
+                (key_undefined vr (fst kd) = false /\ key_of_compound vr (fst kd) = KStr (fst kd)) /\ rt_good vr g (snd kd)).
       { intros kd I. apply smap_of_list_in in I. unfold embl in I. apply in_map_iff in I.
         destruct I as ([k x] & E & I). subst kd. simpl.
         rewrite forallb_forall in U3, V. specialize (U3 _ I). specialize (V _ I). simpl in U3, V.
         apply andb_true_iff in U3. destruct U3 as [U3 U4]. apply andb_true_iff in V. destruct V as [V3 V4].
-        apply negb_true_iff in U3, V3. split; [split; [exact V3|apply key_plain; exact U3]|].
+        apply andb_true_iff in V3. destruct V3 as [V3 V5].
+        apply negb_true_iff in U3, V3. split; [split; [exact V3|apply key_plain; [exact U3|]]|].
+        { apply orb_true_iff in V5. destruct V5 as [V5|V5]; apply negb_true_iff in V5; [left|right]; exact V5. }
         rewrite Forall_forall in IH. apply (IH _ I); assumption. }
       apply rt_good_map.
       + apply smap_of_list_nonempty. destruct kvs; [discriminate|discriminate].
@@ -1187,7 +1232,7 @@ Section EventFacts.
 
   (* a value carried as the single param / namelist entry [k] arrives as _event.data.[k] *)
   Lemma single_entry_event : forall vr g nm ty k d l ps nl,
-    key_numeric k = false -> key_undefined vr k = false ->
+    key_of_compound vr k = KStr k -> key_undefined vr k = false ->
     gdl vr g d = MOk l -> is_lnil l = false ->
     (ps = [(k, d)] /\ nl = []) \/ (ps = [] /\ nl = [(k, d)]) ->
     evdata vr g (mk_event nm ty data_default ps nl) = MOk (LTable [(KStr k, l)]).
@@ -1199,7 +1244,7 @@ Section EventFacts.
     { destruct C as [[-> ->]|[-> ->]]; reflexivity. }
     rewrite M. simpl data_absent. cbv iota.
     change (data_absent vr (Data [] INTERPRETED [] [(k, d)])) with false.
-    rewrite gdl_comp. simpl. rewrite K2, G. rewrite (key_plain k K1).
+    rewrite gdl_comp. simpl. rewrite K2, G. rewrite K1.
     unfold tbl_set. rewrite N. reflexivity.
   Qed.
 
@@ -1220,12 +1265,21 @@ Section EventFacts.
       unfold data_absent. simpl. destruct (smap_of_list (embl F d2s kvs)); [contradiction|reflexivity].
   Qed.
 
-  Lemma key_p_ok : forall vr, key_numeric s_p = false /\ key_undefined vr s_p = false.
-  Proof. intro vr. split; [reflexivity|]. unfold key_undefined. rewrite andb_false_r. reflexivity. Qed.
-  Lemma key_q_ok : forall vr, key_numeric s_q = false /\ key_undefined vr s_q = false.
-  Proof. intro vr. split; [reflexivity|]. unfold key_undefined. rewrite andb_false_r. reflexivity. Qed.
-  Lemma key_nl_ok : forall vr, key_numeric s_nl = false /\ key_undefined vr s_nl = false.
-  Proof. intro vr. split; [reflexivity|]. unfold key_undefined. rewrite andb_false_r. reflexivity. Qed.
+  Lemma key_p_ok : forall vr, key_of_compound vr s_p = KStr s_p /\ key_undefined vr s_p = false.
+  Proof.
+    intro vr. split; [unfold key_of_compound; destruct (lm_sign_anywhere vr); reflexivity|].
+    unfold key_undefined. rewrite andb_false_r. reflexivity.
+  Qed.
+  Lemma key_q_ok : forall vr, key_of_compound vr s_q = KStr s_q /\ key_undefined vr s_q = false.
+  Proof.
+    intro vr. split; [unfold key_of_compound; destruct (lm_sign_anywhere vr); reflexivity|].
+    unfold key_undefined. rewrite andb_false_r. reflexivity.
+  Qed.
+  Lemma key_nl_ok : forall vr, key_of_compound vr s_nl = KStr s_nl /\ key_undefined vr s_nl = false.
+  Proof.
+    intro vr. split; [unfold key_of_compound; destruct (lm_sign_anywhere vr); reflexivity|].
+    unfold key_undefined. rewrite andb_false_r. reflexivity.
+  Qed.
 
   Lemma field_single : forall k (l : lua F), field_of (LTable [(KStr k, l)]) k = MOk l.
   Proof. intros k l. simpl. rewrite beq_bytes_refl. reflexivity. Qed.
@@ -1279,7 +1333,7 @@ Section EventFacts.
      numeral characters is evaluated by the Lua VM ... *)
   Lemma literal_denotes_by_eval : forall vr g lit_text v,
     unamb v = true -> variant_ok vr v = true ->
-    lit_text <> [] -> is_numeric lit_text = false ->
+    lit_text <> [] -> is_numeric (lm_sign_anywhere vr) lit_text = false ->
     leval g lit_text = Some [lua_of_value v] ->
     literal_denotes vr g lit_text v.
   Proof.
@@ -1589,7 +1643,7 @@ Section Refutations.
   Proof.
     intros vr g H O. exists (VNum (NInt (TWO53 + 1)%Z)), (LNum (NInt (TWO53 + 1)%Z)).
     split; [reflexivity|]. split.
-    - reflexivity.
+    - unfold embed, atomI, get_data_as_lua, atom_branch_taken, atom_as_lua. destruct (lm_sign_anywhere vr); reflexivity.
     - simpl. rewrite H. unfold TWO53 in *. simpl in O. rewrite O. vm_compute. discriminate.
   Qed.
 
@@ -1599,6 +1653,16 @@ Section Refutations.
   Proof.
     intros vr g H. exists (VMap [([], VBool true)]). split; [reflexivity|].
     simpl. unfold key_undefined. rewrite H. reflexivity.
+  Qed.
+  (* the key "1-2" is taken for the integer 1: the map {"1-2" = "abc"} comes back as the array {"abc"} *)
+  Lemma sign_position_refuted_lemma : forall vr g, lm_sign_anywhere vr = true ->
+    exists v l, unamb v = true /\ gdl vr g (emb v) = MOk l /\ gld vr l <> emb v.
+  Proof.
+    intros [a b c d e] g H. simpl in H. subst e.
+    exists (VMap [([49; 45; 50], VStr [97; 98; 99])]), (LTable [(KInt 1, LStr [97; 98; 99])]).
+    split; [reflexivity|]. split.
+    - destruct a, d; reflexivity.
+    - destruct b; vm_compute; discriminate.
   Qed.
 End Refutations.
 
@@ -1615,9 +1679,9 @@ Lemma toy_oracle_ok : oracle_ok Z str_to_long (fun z => z) dec_of_Z toy_eval in_
 Proof.
   unfold oracle_ok. repeat split.
   - intros f _. apply dec_of_Z_nonempty.
-  - intros f _ _ D. rewrite contains_dot_dec in D. discriminate.
-  - intros f S _ _. exists f. auto.
-  - intros g f _ N. rewrite is_numeric_dec in N. discriminate.
+  - intros sa f _ _ D. rewrite contains_dot_dec in D. discriminate.
+  - intros sa f S _ _. exists f. auto.
+  - intros sa g f _ N. rewrite is_numeric_dec in N. discriminate.
 Qed.
 
 (* a nested value with number-like strings: {a = "007", b = {"1.5", {c = "true", d = -7, [""] = "nil"}}} *)
